@@ -97,6 +97,8 @@ REWRITES = {
     "str_suffix": ("re", r"&text\[i \+ c\.len_utf8\(\)\.\.\]", r"str_suffix(text, i + char_len_utf8(c))", "&text[j..] and char::len_utf8 -> shims"),
     "char_len_utf16": ("re", r"c\.len_utf16\(\)", r"char_len_utf16(c)", "char::len_utf16 -> shim"),
     "str_len": ("re", r"\btext\.len\(\)", r"str_len(text)", "str::len -> shim (byte length)"),
+    "string_replace_range_acc": ("re", r"acc\.text\.replace_range\(", r"string_replace_range(&mut acc.text, ", "String::replace_range has no vstd spec; shim with the std call"),
+    "filter_map_collect": ("chain_fmc2", "filter_map", "filter_map_collect", "xs.iter().filter_map(f).collect() -> shim with the same std body (R8)"),
     "drop_const_fn": ("re", r"\bconst fn\b", "fn", "const fn that calls non-const shim"),
 }
 
@@ -263,6 +265,34 @@ def apply_rewrite(name, text):
             d3 -= text[e] == "}"
             e += 1
         return text[:m.start()] + repl + text[e:], {"rewrite": name, "why": why, "sites": [{"from": text[m.start():m.start() + 120] + " ... }", "to": repl}]}
+    if spec[0] == "chain_fmc2":
+        _, method, fname, why = spec
+        pat = re.compile(r"\.\s*iter\(\)\s*\.\s*" + method + r"\s*\(")
+        out, sites, pos = text, [], 0
+        while True:
+            m = pat.search(out, pos)
+            if not m:
+                break
+            dot = m.start()
+            rs = _postfix_chain_start(out, dot)
+            recv = re.sub(r"\s+", "", out[rs:dot])
+            depth, k = 1, m.end()
+            while depth:
+                if out[k] in "([{":
+                    depth += 1
+                elif out[k] in ")]}":
+                    depth -= 1
+                k += 1
+            clo = out[m.end():k - 1].strip()
+            tail = re.match(r"\s*\.\s*collect\(\)", out[k:])
+            if not tail:
+                pos = k
+                continue
+            new = f"{fname}(&{recv}, {clo})"
+            sites.append({"from": out[rs:k + tail.end()][:120], "to": new[:120]})
+            out = out[:rs] + new + out[k + tail.end():]
+            pos = rs + 10
+        return out, {"rewrite": name, "why": why, "sites": sites}
     if spec[0] == "chain_fmc":
         why = spec[3]
         pat = re.compile(r"\.\s*iter\(\)\s*\.\s*flat_map\s*\(")
@@ -666,7 +696,7 @@ def emit_block(blk, rel, out_lines, meta):
     for order, (d, arg, payload, tl) in enumerate(blk.subs):
         if d in ("rewrite", "lift", "vis", "assume_body"):
             continue
-        if r.kind == "closure" and d not in ("before", "after", "loop", "at_end"):
+        if r.kind == "closure" and d not in ("before", "after", "loop", "at_end", "closure", "after_closure"):
             if d == "sig":
                 # contract of the lifted function goes after the lifted signature
                 ins.append((-1, payload, order))
